@@ -41,6 +41,7 @@ type world struct {
 	p0  *prWorld
 	ev  *evWorld
 	it  *itWorld
+	ar  *arWorld
 }
 
 // emit records one request line and the implementation's answer to it.
@@ -110,6 +111,8 @@ func (w *world) exec(op string) (string, string) {
 			line, ans = w.execHC(f[1:])
 		case "mn":
 			ans = w.execMN(f[1:])
+		case "ar":
+			ans = w.execAR(f[1:])
 		case "lk":
 			line, ans = w.execLK(f[1:])
 		case "lm":
@@ -231,6 +234,9 @@ func main() {
 	add(prCorpus...)
 	add(evCorpus...)
 	add(itCorpus...)
+	add([]string{"ar arity 3", "ar new 0", "ar new 2", "ar hook 0 0", "ar hook 1 1", "ar link 1 0", "ar trigger 0 312", "ar trigger 0 123", "ar trigger 1 231", "ar tcount 1"},
+		[]string{"ar arity 9", "ar new 0", "ar hook 0 0", "ar trigger 0 987654321", "ar trigger 0 123456789"},
+		[]string{"ar arity 0", "ar new 1", "ar hook 0 0", "ar trigger 0 0", "ar trigger 0 0", "ar tcount 0"})
 	add([]string{"mn 0 0 3 1 0", "mn 2 1 4 0 0 1", "mn 0 0 2 2", "mn 1 0 5 0", "mn 0 2 3 3 1 2 0",
 		"mn 18446744073709551615 0 3 9223372036854775808 1", "mn 9223372036854775807 1 2 0 18446744073709551614 9223372036854775806"})
 	gen := func(n int, g func(rng *hx.Rng) []string) {
@@ -247,6 +253,10 @@ func main() {
 	gen(2500*r.Scale, func(rng *hx.Rng) []string { return genEV(rng, 6+rng.Intn(30)) })
 	gen(1500*r.Scale, genIT)
 	gen(150*r.Scale, genMN)
+	for n := 0; n <= 9; n++ {
+		n := n
+		gen(30*r.Scale, func(rng *hx.Rng) []string { return genAR(rng, n) })
+	}
 	runAll(r, subs, cases, 64)
 	// stress cases: few at a time, each starts its own goroutines
 	rng, _ := r.Rng.Fork()
